@@ -100,7 +100,10 @@ RULE = (
     "operands, used in if / elif / else, `if not`, while / `while not` (with else), conditional expressions, asserts, early "
     "returns and inside for loops; parameters typed as Literal unions, Optional, int, str, list[int] and locals assigned "
     "from literals; every variable is read in BOTH branches and after the statement; plus calls of UNANNOTATED helpers "
-    "whose paths return values, return bare or fall off the end; and (in the COMPOSITE stream) composites t[k] over a root "
+    "whose paths return values, return bare or fall off the end; functions over displays with unpacking of conditionally "
+    "empty containers ({**base} with base a union of dict displays incl. {}, [*xs] / (*xs,) / {*xs}) iterated by for "
+    "(directly and through list / tuple / set / sorted / enumerate / keys / items / values) with a variable assigned before "
+    "the loop, reassigned in the body and read in the loop's else and after the loop; and (in the COMPOSITE stream) composites t[k] over a root "
     "that is a UNION of containers (parameter or conditional expression), narrowed by a test and read in both branches), "
     "no del, no nested functions; every loop is bounded. Functions in which pyanalyze reports "
     "any diagnostic are not judged (the property speaks about values, not diagnostics); executions in which a callee "
@@ -4214,6 +4217,50 @@ class UnannotatedGen:
         return helper, caller, argsets
 
 
+class StarIterGen:
+    """Displays with unpacking of CONDITIONALLY EMPTY containers (`{**base}` with base a union of dict displays incl. `{}`;
+    `[*xs]`, `(*xs,)`, `{*xs}` with xs possibly empty), iterated by `for` (directly or through list / tuple / set /
+    sorted / enumerate / keys / items), with a variable assigned before the loop, reassigned in the body and read in the
+    loop's else and after the loop."""
+
+    def __init__(self, rng, name, feats):
+        self.rng, self.name, self.feats = rng, name, feats
+
+    def generate(self):
+        rng = self.rng
+        kind = rng.choice(["dict", "dict", "dict", "list", "tuple", "set"])
+        self.feats["star_" + kind] = self.feats.get("star_" + kind, 0) + 1
+        lines = ["def %s(c: bool, b: bool) -> int:" % self.name]
+        if kind == "dict":
+            full = rng.choice(["{'x': 1}", "{'x': 1, 'y': 2}", "{'x': None}"])
+            other = rng.choice(["{}", "{}", "{'z': 3}"])
+            lines.append("    base = %s if c else %s" % ((full, other) if rng.random() < 0.5 else (other, full)))
+            d = rng.choice(["{**base}", "{**base}", "{**base, **base}", "{**base, **({'w': 0} if b else {})}", "{'k': 0, **base}", "{**{}, **base}"])
+        else:
+            full = rng.choice(["[1, 2]", "(1,)", "['a']", "[None, 1]"])
+            empty = rng.choice(["[]", "()", "[]"])
+            lines.append("    base = %s if c else %s" % ((full, empty) if rng.random() < 0.5 else (empty, full)))
+            body = rng.choice(["*base", "*base", "*base, *base", "*base, *(base if b else ())", "*[], *base"])
+            d = {"list": "[%s]", "tuple": "(%s,)", "set": "{%s}"}[kind] % body
+        lines.append("    d = %s" % d)
+        it = rng.choice(["d", "d", "d", "d", "d", "d", "list(d)", "tuple(d)", "set(d)", "sorted(d, key=str)", "enumerate(d)"] +
+                        (["d.keys()", "d.items()", "d.values()"] if kind == "dict" else ["reversed(list(d))"]))
+        init = rng.choice(["None", "0", "'init'"])
+        lines.append("    y = %s" % init)
+        lines.append("    n = 0")
+        lines.append("    for k in %s:" % it)
+        lines.append("        y = %s" % rng.choice(["k", "k", "1", "(k, n)"]))
+        if rng.random() < 0.3:
+            lines.append("        n = inc(n)")
+        if rng.random() < 0.2:
+            lines += ["        if b:", "            break"]
+        if rng.random() < 0.3:
+            lines += ["    else:", "        v1 = y"]
+        lines += ["    v2 = y", "    v3 = d", "    return 0"]
+        fn = {"name": self.name, "ptypes": [T(BOOL), T(BOOL)], "ret": T(INT), "src": "\n".join(lines), "num_eq": False}
+        return fn, [[("bool", a), ("bool", bb)] for a in (0, 1) for bb in (0, 1)]
+
+
 def cond_stream(ctx, stats, feats, on_exec):
     rng = ctx.rng
     n_fns = ctx.n(300, 2000)
@@ -4225,6 +4272,10 @@ def cond_stream(ctx, stats, feats, on_exec):
             hf, cf, a = UnannotatedGen(rng, i, feats).generate()
             fns += [hf, cf]
             args[cf["name"]] = a
+        for i in range(5):
+            f, a = StarIterGen(rng, "s%d" % i, feats).generate()
+            fns.append(f)
+            args[f["name"]] = a
         for i in range(per_mod):
             f, a = CondGen(rng, "k%d" % i, feats).generate()
             fns.append(f)
@@ -4236,7 +4287,7 @@ def cond_stream(ctx, stats, feats, on_exec):
             ctx.tag("module_crash_" + type(e).__name__)
             continue
         if m == 0 and fns:
-            ctx.sample({"cond_function": fns[6]["src"]})
+            ctx.sample({"cond_function": fns[11]["src"]})
         for f in fl:
             f["module"] = id(fns)
             f["stream"] = "cond"
